@@ -149,23 +149,26 @@ Section Manager.
     bounds c now -> now <= target ->
     target - (grid c + pV p - pS p) < Z.of_nat fuel * pP p ->
     exists c' hl', adv_loop p fuel (mgr_at c hl) target = mgr_at c' hl' /\ bounds c' target /\
-                   c <= c' /\ (target - now <= pP p -> c' <= c + 1).
+                   c <= c' /\ (target - now <= pP p -> c' <= c + 1) /\
+                   (c' = c -> hl' = hl) /\ (c < c' -> hl' = true).
   Proof.
     destruct Hwf as (HS & HP & _).
     induction fuel as [|f IH]; intros c hl now target Hb Hle Hf.
-    - exists c, hl. cbn [adv_loop]. unfold bounds in *. repeat split; try lia.
+    - exists c, hl. cbn [adv_loop]. unfold bounds in *. repeat split; try lia; auto.
     - cbn [adv_loop]. cbn [m_timer mgr_at].
       destruct (Z.leb_spec (grid c + pV p - pS p) target) as [Hdue|Hnot].
       + rewrite fire_at.
-        destruct (IH (c + 1) true (grid c + pV p - pS p) target) as (c' & hl' & E & Hb' & Hc' & Hstep).
+        destruct (IH (c + 1) true (grid c + pV p - pS p) target) as (c' & hl' & E & Hb' & Hc' & Hstep & Hsame & Hup).
         * unfold bounds in *. rewrite grid_succ. unfold pP in *. lia.
         * lia.
         * rewrite grid_succ. lia.
-        * exists c', hl'. split; [exact E|]. split; [exact Hb'|]. split; [lia|].
-          intros Hd. unfold bounds in Hb, Hb'. destruct Hb' as (_ & Hb1 & Hb2).
-          assert (grid c' = grid c + (c' - c) * pP p) by (unfold grid; ring).
-          unfold pP in *. nia.
-      + exists c, hl. unfold bounds in *. repeat split; try lia.
+        * exists c', hl'. split; [exact E|]. split; [exact Hb'|]. split; [lia|]. split; [|split].
+          -- intros Hd. unfold bounds in Hb, Hb'. destruct Hb' as (_ & Hb1 & Hb2).
+             assert (grid c' = grid c + (c' - c) * pP p) by (unfold grid; ring).
+             unfold pP in *. nia.
+          -- intros ->. lia.
+          -- intros Hlt. assert (c' = c + 1 \/ c + 1 < c') as [Ec | Hgt] by lia; [apply Hsame, Ec | apply Hup, Hgt].
+      + exists c, hl. unfold bounds in *. repeat split; try lia; auto.
   Qed.
 
   Lemma adv_fuel_enough d : 0 <= d -> d < Z.of_nat (adv_fuel p d) * pP p.
@@ -177,12 +180,13 @@ Section Manager.
 
   Lemma step_adv_at c hl now d : bounds c now -> 0 <= d ->
     exists c' hl', adv_loop p (adv_fuel p d) (mgr_at c hl) (now + d) = mgr_at c' hl' /\
-                   bounds c' (now + d) /\ c <= c' /\ (d <= pP p -> c' <= c + 1).
+                   bounds c' (now + d) /\ c <= c' /\ (d <= pP p -> c' <= c + 1) /\
+                   (c' = c -> hl' = hl) /\ (c < c' -> hl' = true).
   Proof.
     intros Hb Hd.
-    destruct (adv_loop_at (adv_fuel p d) c hl now (now + d) Hb ltac:(lia)) as (c' & hl' & E & Hb' & Hc & Hs).
+    destruct (adv_loop_at (adv_fuel p d) c hl now (now + d) Hb ltac:(lia)) as (c' & hl' & E & Hb' & Hc & Hs & Hsame & Hup).
     - pose proof (adv_fuel_enough d Hd). unfold bounds in Hb. lia.
-    - exists c', hl'. split; [exact E | split; [exact Hb' | split; [exact Hc | intros; apply Hs; lia]]].
+    - exists c', hl'. split; [exact E | split; [exact Hb' | split; [exact Hc | split; [intros; apply Hs; lia | split; assumption]]]].
   Qed.
 
   (* a restart (or a second manager) at an instant where a manager serves
